@@ -16,6 +16,8 @@ VARIABLE hist
 GInit == Init /\ hist = <<>>
 Step(r) == IF r.act = "Deliver"
            THEN [act |-> "Deliver", args |-> [kind |-> r.kind, s |-> r.s, c |-> r.c, n |-> r.n]]
+           ELSE IF r.act = "DeliverK"
+           THEN [act |-> "DeliverK", args |-> [kind |-> r.kind, s |-> r.s, c |-> r.c, n |-> r.n, v |-> r.k1]]
            ELSE IF r.act = "Deliver2"
            THEN [act |-> "Deliver2", args |-> [k1 |-> r.k1, k2 |-> r.kind, s |-> r.s, c |-> r.c, ord |-> r.ord]]
            ELSE [act |-> r.act, args |-> [g |-> r.s, e |-> r.c]]
@@ -43,8 +45,14 @@ Honest2 == IF Full THEN {"VaKeepAlive", "TfCreateDenom"} ELSE {"VaKeepAlive"}
 GDeliver2 == \E k1 \in Honest2, s \in Signers, c \in Users, ord \in {1, 2} : \E k2 \in Forged2(k1) :
                 s # c /\ Deliver2(k1, k2, s, c, ord)
 
-GAct == GGrant \/ GDeliverUser \/ GDeliverGov \/ GDeliver2
-Delivered == last.act \in {"Deliver", "Deliver2"}
+\* key collisions: every keyed kind x creator, owner of the collided object x every variant; only under fee-grant
+\* relations without revoked / expired allowances (quick: A->B none, B->A none or active)
+KGrants == \A pr \in Pairs : grants[pr] \in {"none", "active"}
+GDeliverK == KGrants /\ (Full \/ grants[<<A, B>>] = "none") /\
+             \E k \in Keyed, s \in Signers, c \in Users, n \in Users, v \in Variants : DeliverK(k, s, c, n, v)
+
+GAct == GGrant \/ GDeliverUser \/ GDeliverGov \/ GDeliver2 \/ GDeliverK
+Delivered == last.act \in {"Deliver", "Deliver2", "DeliverK"}
 \* a delivered history is emitted and not extended; the grant steps are not part of the view (two orders of the
 \* same grants give one relation)
 GNextC == (IF Delivered THEN PrintT(<<"HIST", ToJson(hist)>>) ELSE TRUE)
